@@ -68,6 +68,7 @@ type c44World struct {
 	stale    *int
 	sp       []*c44Tx // valid state-proof transactions, in order
 	accum    bool
+	scripted bool
 	stat     map[string]int
 	// what the calls made so far oblige the pool to: esync = an OnNewBlock for a block at or
 	// above evalRound was delivered since the ledger last grew (then the pool must work on latest+1)
@@ -702,7 +703,7 @@ func (w *c44World) newGroupSP() []*c44Tx {
 
 func (w *c44World) history(nOps int, noSPBlocks bool) {
 	w.ops = append(w.ops, vL(vSym("ini"), w.obs("none")))
-	if len(w.sp) > 0 && w.r.Intn(4) > 0 {
+	if len(w.sp) > 0 && w.scripted {
 		// scripted prefix: fill the pool, then the state proofs arrive
 		if w.r.Intn(3) == 0 {
 			w.remember([]*c44Tx{w.sp[1]}) // out of order: rejected by the evaluator
@@ -947,7 +948,10 @@ func c44StateProofWorld(t *testing.T, r *vRand, out *vOut, stale *int, stat map[
 		w := c44NewWorld(t, r, l, protocol.ConsensusCurrentVersion, secrets[:2], addrs, stale, stat)
 		w.leaseOff = 10 * (h + 1)
 		w.noteCtr = uint64(h+1) << 32
-		w.accum = accum
+		// history 0 replays the C44_size_by_one_refuted witness (two state proofs over the size, one
+		// block apart), history 1 stops at the single allowed overflow; later ones are random
+		w.accum = accum && h%2 == 0
+		w.scripted = h < 2 || r.Intn(4) > 0
 		w.sp = []*c44Tx{w.reg(sp1, 1), w.reg(sp2, 1)}
 		w.groups = append(w.groups, []*c44Tx{w.sp[0]}, []*c44Tx{w.sp[1]})
 		w.startPool(out, nOps/2+r.Intn(nOps), true)
